@@ -125,6 +125,9 @@ PROPERTIES = {
             {"name": "single_op_vjp", "cases": FE.c02_cases(tier, seed),
              "what": "one operation per case, backward with a prime-valued seed, every deposited gradient compared: element-wise ops over broadcast pairs and tracked subsets, neg/scale/powf(-2..4)/reciprocal/relu/sum(k)/reshape, matmul (flags, additive term, leading patterns, rank-1 forms), conv (strides 1..3, batches), user operations",
              "require": {"judged": 1500, "passes": 1500}},
+            {"name": "single_op_vjp_large", "cases": FE.c02_large_cases(tier, seed),
+             "what": "beyond the exhaustive sizes: element-wise gradients with dimensions up to 6 and rank up to 4, matmul up to 6x6x6 with leading dimensions and additive terms, sum(k), conv on images up to 8x8 with filters up to 4x4, strides up to 4, batches up to 4",
+             "require": {"passes": 100}},
             {"name": "single_op_vjp_real", "cases": FR.real_op_cases(tier, seed), "spec": "TraceReal", "real": True,
              "what": "real domain: ln, exp, sigmoid, softmax, reciprocal, powf with exponents 2.5 / 0.5 / -1.5 / integers, general division and the exact operations on random real values; forward value and every gradient compared through spec-generated terms (tolerance 64 ulp of the term magnitude)",
              "require": {"passes": 400, "real_checked": 5000}},
@@ -132,17 +135,20 @@ PROPERTIES = {
         "rule": "a case = one operation with one parameterisation, operand shapes, tracked subset and seed; distinct by program hash",
     },
     "C01": {
-        "level_text": "AutodiffAbs!RefAdj is a counter-free definition of the adjoint of every node (sum over tracked uses by reached consumers of the definition-derived VJPs); TLC checks that the implementation-shaped pass AutodiffImpl (consumer counts, pending sums, depth-first recursion) implements it on every graph of <=2 (thorough <=3) operations with every tracked/untracked operand choice and root, and the trace specification requires every gradient the real crate deposits - on TLC-enumerated graphs, TLC-simulated histories and random tensor programs with data-dependent control flow - to equal it bit for bit",
+        "level_text": "AutodiffAbs!RefAdj is a counter-free definition of the adjoint of every node (sum over tracked uses by reached consumers of the definition-derived VJPs); TLC checks that the implementation-shaped pass AutodiffImpl (consumer counts, pending sums, depth-first recursion) implements it on every graph of <=2 (thorough <=3) operations with every tracked/untracked operand choice and root (and that the linear scatter form of RefAdj used by the validators equals the gather definition: AdjFormsAgree, StoreFormsAgree), and the trace specification requires every gradient the real crate deposits - on TLC-enumerated graphs, TLC-simulated histories and random tensor programs with data-dependent control flow - to equal it bit for bit",
         "level_note": ENGINE_NOTE,
         "technique": "TLC model checking of AutodiffImpl against AutodiffAbs + TLC trace validation of spec-generated and random programs run on the real crate",
         "mc": lambda tier: [mc("MC_Engine_p1" if tier == "quick" else "MC_Engine_t3"),
-                            ],
+                            mc("GenEngine_forms", module="GenEngine")],
         "families": lambda tier, seed: [
             tlc_family("tlc_graphs", "GenEngine_pass", "C01", limit=2500 if tier == "quick" else 30000, seed=seed,
                        mask=M_GRAD, exhaustive=True, require={"passes": 1000}),
             {"name": "random_programs", "cases": FE.random_cases(seed, 1200 if tier == "quick" else 12000), "mask": M_GRAD,
              "what": "seeded random programs over add/sub/mul/div/axpy/neg/scale/powf/sum/reshape/matmul/relu/user ops with broadcasting, clones, drops, flag changes, several passes and data-dependent branches (cmp / when)",
              "require": {"passes": 1000}},
+            {"name": "scale", "cases": FE.scale_cases(tier, seed), "mask": M_GRAD,
+             "what": "scale beyond the exhaustive bound: one leaf with up to 300 (thorough 520) consumers, chains of up to 90 (130) built-in operations, up to 9 passes with drops and clears in between, 12 results alive at once, programs of 25-45 steps",
+             "require": {"passes": 40}},
             {"name": "suite_derived", "cases": FE.suite_derived_cases(), "mask": M_GRAD | {"values", "dims", "tracked-flag", "immutable"},
              "what": "the README / module-doc loop with its data-dependent branch (four parameter sets) and the graphs of the repository's own backward tests, with every value, flag and gradient validated at every step",
              "require": {"passes": 15}},
@@ -176,6 +182,10 @@ PROPERTIES = {
             {"name": "tracking_rules", "cases": FE.c09_cases(tier, seed), "mask": M_TRACK,
              "what": "every operation x every tracked subset of its operands (result flag, no reference kept when untracked, gradients only where tracked, flags restored after passes, gradients plain), untracked intermediates, random flag-heavy programs",
              "require": {"passes": 300, "owned": 30}},
+            {"name": "tracking_rules_real", "cases": FR.real_tracking_cases(tier, seed), "spec": "TraceReal", "real": True,
+             "mask": M_TRACK | {"unexpected-panic"},
+             "what": "the transcendental operations (ln, exp, sigmoid, softmax, reciprocal, powf 1.5, division): result flags, gradients plain and untracked, operands own their buffers again after the results are dropped",
+             "require": {"owned": 20}},
             tlc_family("tlc_flag_histories", "GenEngine_hist", "C09", simulate=(150 if tier == "quick" else 1500, 20), seed=seed,
                        mask=M_TRACK, require={"passes": 500}),
         ],
@@ -192,6 +202,8 @@ PROPERTIES = {
                        mask=M_GRAD, require={"passes": 1500}),
             tlc_family("tlc_small_histories", "GenEngine_hist2q" if tier == "quick" else "GenEngine_hist2", "C10b", limit=2500 if tier == "quick" else 40000, seed=seed,
                        mask=M_GRAD, exhaustive=True, require={"passes": 1000}),
+            {"name": "scale_histories", "cases": FE.scale_cases(tier, seed + 1), "mask": M_GRAD,
+             "what": "many passes over one graph with drops / clears, wide fan-out, deep chains", "require": {"passes": 40}},
             {"name": "random_histories", "cases": FE.random_cases(seed + 3, 600 if tier == "quick" else 6000, nsteps=(8, 22), p_pass=0.3),
              "mask": M_GRAD, "what": "random programs with many passes, clears and flag changes over a shared leaf pool",
              "require": {"passes": 1500}},
@@ -246,6 +258,9 @@ PROPERTIES = {
                        mask=M_OWN, exhaustive=True, require={"owned": 500}),
             tlc_family("tlc_ownership_sim", "GenEngine_hist", "C18b", simulate=(150 if tier == "quick" else 1500, 20), seed=seed + 2,
                        mask=M_OWN, require={"owned": 1000}),
+            {"name": "ownership_real", "cases": FR.real_tracking_cases(tier, seed + 1), "spec": "TraceReal", "real": True, "mask": M_OWN,
+             "what": "ln / exp / sigmoid / softmax / reciprocal / powf / division: after a pass with stored gradients and the drop of every result the operand is the sole owner of its buffer",
+             "require": {"owned": 20}},
             {"name": "training_loops", "cases": FM.c14_cases(tier, seed + 5), "mask": M_OWN,
              "what": "model loops: after the next forward the previous iteration's input and the clones of the old parameters must own their buffers again (nothing of the finished iteration is retained)",
              "require": {"owned": 100}},
